@@ -34,8 +34,8 @@ class C20(TieCheck):
         # (coqc Props_*.v fails) and a concrete failing input is still searched for.
         orig = lib.coq_build
 
-        def build(area, clean=False, _seen=None):
-            ok, lg = orig(area, clean, _seen)
+        def build(area, *a, **kw):
+            ok, lg = orig(area, *a, **kw)
             if not ok and area == self.area:
                 with lib.Lock("coq." + area):
                     rc, _ = sh(["make", "Corr.vo"], cwd=os.path.join(COQ, area), timeout=1500)
